@@ -5,7 +5,7 @@
 From Coq Require Import ZArith List Bool.
 Import ListNotations.
 Require Import MS.Base.GoInt MS.Model.Ticks MS.Model.TicksPF MS.Proofs.Ticks_facts MS.Proofs.Ticks_sweep
-  MS.Proofs.Ticks_sweep_all.
+  MS.Proofs.Ticks_sweep_all MS.Proofs.Ticks_equiv.
 Local Open Scope Z_scope.
 
 (** Order: for EVERY on-disk timeframe and EVERY pair of offsets inside an interval the encoder
@@ -31,6 +31,21 @@ Theorem C10_1sec_blocks : forall o, (exists lo, In lo block_starts /\ lo <= o < 
   guard_1sec_pf o = true -> dec_offset_pf 86400 (enc_pf 86400 o) = o.
 Proof. exact sweep_blocks. Qed.
 Print Assumptions C10_1sec_blocks.
+
+(** The two models are EQUAL (not only differentially tied): the primitive-float mirror computes the
+    same ticks / (sec, nanosec) as the Flocq model for all arguments below 2^63.  Rests on Flocq's
+    IEEE754.PrimFloat equivalence lemmas, i.e. on Coq's FloatAxioms. *)
+Theorem C10_models_equal : forall start ipd d ticks,
+  0 <= ipd < 2 ^ 63 -> 0 <= d < 2 ^ 63 -> 0 <= ticks < 2 ^ 63 ->
+  enc_pf ipd d = enc ipd d /\ dec_pf start ipd ticks = dec start ipd ticks.
+Proof. intros start ipd d ticks Hi Hd Ht. split; [ apply enc_pf_eq | apply dec_pf_eq ]; assumption. Qed.
+Print Assumptions C10_models_equal.
+
+(** ... hence the block sweep is a statement about the Flocq model, with the guard of the bound theorem *)
+Theorem C10_1sec_blocks_flocq : forall o, (exists lo, In lo block_starts /\ lo <= o < lo + block) ->
+  guard_C10 86400 o = true -> dec_offset 86400 (enc 86400 o) = o.
+Proof. exact sweep_blocks_flocq. Qed.
+Print Assumptions C10_1sec_blocks_flocq.
 
 (** Full statement (the property as given): for every timeframe and offset the decoded time lies in
     the same interval, not after the original and at most one resolution step before it. *)
